@@ -230,10 +230,16 @@ func apiCase(re *regexp2.Regexp, b []byte, repls [][]int, counts []int, rtl bool
 	c.IterR = chain(func() (*regexp2.Match, error) { return re.FindRunesMatch(runes) })
 	for _, n := range []int{-1, 0, 1, 2, 3} {
 		var a, bb IdxRes
-		if e := guard(func() { v, err := re.FindAllStringIndex(s, n); a = IdxRes{N: n, V: idxPairs(v), Nil: v == nil, Err: errStr(err)} }); e != "" {
+		if e := guard(func() {
+			v, err := re.FindAllStringIndex(s, n)
+			a = IdxRes{N: n, V: idxPairs(v), Nil: v == nil, Err: errStr(err)}
+		}); e != "" {
 			a = IdxRes{N: n, V: [][2]int{}, Err: e}
 		}
-		if e := guard(func() { v, err := re.FindAllRunesIndex(runes, n); bb = IdxRes{N: n, V: idxPairs(v), Nil: v == nil, Err: errStr(err)} }); e != "" {
+		if e := guard(func() {
+			v, err := re.FindAllRunesIndex(runes, n)
+			bb = IdxRes{N: n, V: idxPairs(v), Nil: v == nil, Err: errStr(err)}
+		}); e != "" {
 			bb = IdxRes{N: n, V: [][2]int{}, Err: e}
 		}
 		c.FAI = append(c.FAI, a)
